@@ -35,6 +35,9 @@ fn main() {
     engine::install_panic_hook();
     instr::disarm_all();
     let verif_dir = std::env::var("VERIF_DIR").unwrap_or_else(|_| "/verif".to_string());
+    if args[1] == "--probe-offsets" {
+        std::process::exit(props::c01::offset_probe_child());
+    }
     if args[1] == "--replay" {
         let path = args.get(2).cloned().unwrap_or_else(|| usage());
         let body = match std::fs::read_to_string(&path)
